@@ -6,6 +6,7 @@
 mod libgen;
 mod luagen;
 mod scope;
+mod twin;
 mod rng;
 mod sx;
 
@@ -105,6 +106,8 @@ fn main() {
         "c08" => c08::run(&args, &mut out),
         "c10" => c08::run_c10(&args, &mut out),
         "scope" => scope::run(&args, &mut out),
+        "c13" => twin::run(&args, &mut out, "c13"),
+        "c14" => twin::run(&args, &mut out, "c14"),
         "c15" => c15::run(&args, &mut out),
         "c16" => c16::run(&args, &mut out),
         other => {
